@@ -33,6 +33,10 @@ func c01observe(f QFrame) c01snap {
 	for _, t := range f.ColumnTypes() {
 		s.typs = append(s.typs, string(t))
 	}
+	tm := f.ColumnTypeMap()
+	for k, name := range s.names {
+		vx.Check(string(tm[name]) == s.typs[k], "ColumnTypeMap agrees with ColumnTypes")
+	}
 	for k, name := range s.names {
 		var col []c06cell
 		for r := 0; r < s.n; r++ {
@@ -181,6 +185,12 @@ func c01op(op string, f, g QFrame) []QFrame {
 	case "x_append_spare": // deliberately wrong (false twin): appends into spare capacity of a shared index
 		_ = append(f.index, 0)
 		return nil
+	case "filter_promote": // int column compared with a float column (temporary promotion)
+		return []QFrame{f.Filter(Filter{Column: "a", Comparator: "<", Arg: types.ColumnName("f")}), f.Filter(Filter{Column: "f", Comparator: ">=", Arg: types.ColumnName("a2")})}
+	case "distinct_float":
+		return []QFrame{f.Distinct(groupby.Columns("f")), f.Distinct(groupby.Columns("f"), groupby.Null(true))}
+	case "groupby_float":
+		return []QFrame{f.GroupBy(groupby.Columns("f"), groupby.Null(true)).Aggregate(Aggregation{Fn: "sum", Column: "a"})}
 	case "filter_ilike":
 		return []QFrame{f.Filter(Filter{Column: "s", Comparator: "ilike", Arg: "y%"}), f.Filter(Filter{Column: "e", Comparator: "ilike", Arg: "%B"})}
 	case "filter_like_regex":
@@ -220,7 +230,16 @@ func VX_C01_persist() {
 	for k := range bc.b {
 		bc.b[k] = k%2 == 0 // concrete: grouping by c is deterministic here
 	}
-	cols := []vxCol{vxMakeColLite("int", P), vxMakeColLite("float", P), bc, sc, ec}
+	fc := vxMakeColLite("float", P)
+	if strings.Contains(vx.ParamStr("ops"), "_float") {
+		// grouping by a symbolic float key forks on every row (NaN, zero, hash slot); the cells that
+		// matter for persistence are the ones an operation might canonicalise: -0, NaN payloads
+		fc = vxCol{typ: "float", f: make([]float64, P)}
+		for k := range fc.f {
+			fc.f[k] = []float64{math.Copysign(0, -1), math.Float64frombits(0x7ff8000000000123), 0, 1.5, math.Float64frombits(0xfff8000000000001)}[k%5]
+		}
+	}
+	cols := []vxCol{vxMakeColLite("int", P), fc, bc, sc, ec}
 	vx.ConstrainHash(3, 0)
 	base := vxFrame(names, cols, nil).Copy("a2", "a") // column storage shared between a and a2
 	ix := make([]uint32, P) // a fixed non-identity arrangement: 2,0,1,...
